@@ -117,7 +117,7 @@ func c14Gen(r *rand.Rand, nSteps int) c14Script {
 		// target
 		var name string
 		switch {
-		case withSnapd && r.Intn(8) == 0:
+		case withSnapd && r.Intn(5) == 0:
 			name = "snapd"
 		case len(hot) > 0 && r.Intn(100) < 55:
 			name = hot[r.Intn(len(hot))]
